@@ -27,6 +27,8 @@ requests (lists as in Proto: `[a,b,c]`, nested `[a,b;c,d]`):
   deftime <times> <path> <a>                            -> default time or `inf`
   ftd <times> <paths [p1;p2;…]> <levels>                -> `<default times (inf = none)> <first to default>`
   cds <R> <s> <r> <T> <dfT> <tau|inf> <dfTau> <dfMin>   -> `CDS.evaluate`
+  legsF <E> <theta> <r> <R> <s> <dfT> <dfTau>           -> `<defaultLegF> <fixedLegF> <presentValueF> <cdsDefaultedF> <cdsSurvivedF>`:
+        the carrier-generic formulas the ℝ theorem `cds_legs_are_expectations` speaks about, run at ℚ
 -/
 
 def parseTriplesN (s : String) : Option (List (Nat × Nat × Rat)) := do
@@ -139,6 +141,13 @@ def step (t : List String) : String :=
         | _ => none
       if r = 0 || dfT = 0 then "bad-op" else showRat (cdsPayoff rr s r tt dfT tau' dfTau dfMin)
     | _, _, _, _, _, _, _, _ => "bad-op"
+  | ["legsF", e, th, r, rr, s, dfT, dfTau] =>
+    match parseRat? e, parseRat? th, parseRat? r, parseRat? rr, parseRat? s, parseRat? dfT, parseRat? dfTau with
+    | some e, some th, some r, some rr, some s, some dfT, some dfTau =>
+      if r = 0 || dfT = 0 || r + th = 0 then "bad-op"
+      else String.intercalate " " [showRat (defaultLegF e th r rr), showRat (fixedLegF e th r), showRat (presentValueF e th r rr s),
+        showRat (cdsDefaultedF rr s r dfT dfTau), showRat (cdsSurvivedF s r dfT)]
+    | _, _, _, _, _, _, _ => "bad-op"
   | _ => "bad-op"
 
 def main : IO Unit := runStateless step
